@@ -4,7 +4,10 @@ import NucsProofs.Propagators.CountEq
 import NucsProofs.Propagators.Counting
 import NucsProofs.Propagators.Dummy
 import NucsProofs.Propagators.Element
+import NucsProofs.Propagators.Lex
 import NucsProofs.Propagators.MinMax
+import NucsProofs.Propagators.NoSubCycle
+import NucsProofs.Propagators.Scc
 
 /-!
   C14 — bound-consistent propagators compute exactly the bounds hull of the solutions.
